@@ -4857,6 +4857,11 @@ let conv_count n0 s =
     (append ('#'::(' '::('c'::('a'::('l'::('l'::(' '::[])))))))
       (append (string_of_Z (Z.of_nat n0)) (append nl_s (opt_str s.scode)))))
 
+(** val conv_broken : unit -> symbol -> unit * char list **)
+
+let conv_broken =
+  stateless (fun _ -> 'x'::(' '::('='::(' '::('('::[])))))
+
 (** val conv_empty : unit -> symbol -> unit * char list **)
 
 let conv_empty =
